@@ -448,7 +448,7 @@ func init() {
 		"rename subjects are class methods (interface method positions start at the first token of the declaration, DESIGN.md appendix B) whose name is not overloaded in the class",
 		"the new name is fresh in the project (letters only; all generated identifiers end in a digit)",
 		"one case in fifteen goes through the sub-process `coca refactor -R conf -d deps.json` with the model serialised to deps.json")
-	pbt.Register("rename", 200, 1500, gen, check)
+	pbt.Register("rename", 400, 2000, gen, check)
 }
 
 func TestProp(t *testing.T)   { pbt.Main(t) }
